@@ -60,7 +60,7 @@ def defects_back():
         P("D04-back", "C11", d + "15-316b1fe.revert.diff", "C11-C"),
         P("D03-back", "C11", d + "16-3cd1d21.revert.diff", "C11-F"),
         P("D11-back", "C15", d + "17-3d1385c.revert.diff", "C15-D"),
-        P("D18-back", "C15", d + "18-105611d.revert.diff", "C15-I"),
+        P("D18-back", "C15", d + "18-105611d.revert.diff", "C15-D"),
         P("D16-back", "C10", d + "19-4fea7e8.revert.diff", "C10-P"),
     ]
 
